@@ -1,13 +1,14 @@
 """C02 - each iteration result is the documented estimator of exactly the sampled values.
 Spec: Call.tla (Accumulated / ResultOK), MC_Call, Trace_Call."""
 import vt
+import mpicommon
 from callcommon import run_call_check
 
 LEVEL = "model_checking"
 BUILDS = [(("drv_c02", ["drv_c02.cpp"]), {})]
 
 
-def run(chk, replay=None):
+def run_main(chk, replay=None):
     thorough = chk.tier == "thorough"
     chk.cov["checker_cmd"] = "tlc MC_Call; tlc Trace_Call (TRACE=out/C02/trace.ndjson)"
     chk.cov["trusted_base"] = ["TLC", "script_engine", "integrand values are small integers and weights small dyadic numbers, so sums are exact in float "
@@ -36,6 +37,15 @@ def run(chk, replay=None):
         if r2.rc == 0:
             raise vt.MachineryError("binding self-test: corrupted trace accepted")
         chk.cov["binding_selftest"] = "sumsq off by one unit at event %d: rejected (matched %s)" % (i + 1, r2.matched)
+
+
+def run(chk, replay=None):
+    if mpicommon.is_mpi_replay(replay):
+        mpicommon.mpi_leg(chk, "C02:mpi", replay=replay)
+        return
+    run_main(chk, replay=replay)
+    if not replay and not chk.violations:
+        mpicommon.legs(chk, "C02:mpi", big=True)
 
 
 def replay(chk, path):
